@@ -22,7 +22,7 @@ Inductive c17case :=
 | CReserve (lp lq burst : Z) (inf : bool) (reqs : list (Z * Z)) (obs : list (Z * Z))
 | CReserveApprox (lp lq burst tol : Z) (reqs : list (Z * Z)) (obs : list (Z * Z))
 | CProvision (cfg : tconfig) (ok : bool) (rb tb : Z) (hast : bool)
-| CRead (cfg : tconfig) (avail chunk : Z) (lens : list Z) (obs : list (Z * Z)) (consT consL : Z).
+| CRead (cfg : tconfig) (avail chunk : Z) (lens errs : list Z) (obs ret : list (Z * Z)) (consT consL : Z).
 
 Fixpoint res_seq (L : limiter) (st : lstate) (reqs : list (Z * Z)) : list (Z * Z) :=
   match reqs with
@@ -47,10 +47,13 @@ Fixpoint zz_near (tol : Z) (a b : list (Z * Z)) : bool :=
   | _, _ => false
   end.
 
+Definition rets_of (tr : list ev) : list (Z * Z) :=
+  flat_map (fun e => match e with EPull _ _ _ bs er => [(Z.of_nat (List.length bs), er)] | _ => [] end) tr.
+
 Definition consumed (L : limiter) (st : lstate) : Z := (lburst L * unit L - tok st) / unit L.
 
 Definition pulls_of (tr : list ev) : list (Z * Z) :=
-  flat_map (fun e => match e with EPull _ _ b bs => [(b, Z.of_nat (List.length bs))] | _ => [] end) tr.
+  flat_map (fun e => match e with EPull _ _ b bs _ => [(b, Z.of_nat (List.length bs))] | _ => [] end) tr.
 
 Definition check (c : c17case) : bool :=
   match c with
@@ -68,14 +71,15 @@ Definition check (c : c17case) : bool :=
              && (match htotal h with Some L => lburst L | None => 0 end =? tb)
              && Bool.eqb (match htotal h with Some _ => true | None => false end) hast
       end
-  | CRead cfg avail chunk lens obs consT consL =>
+  | CRead cfg avail chunk lens errs obs ret consT consL =>
       match provision cfg with
       | None => false
       | Some h =>
           let ss := [{| sstart := 0; sjit := 0; scancel := false; sdata := repeat x00 (Z.to_nat avail) |}] in
-          let ops := map (fun l => {| oc := 0; olen := l; odelay := 0; oj2 := 0; oj3 := 0; oavail := chunk |}) lens in
+          let ops := map (fun le => {| oc := 0; olen := fst le; odelay := 0; oj2 := 0; oj3 := 0; oavail := chunk; oerr := snd le |}) (combine lens errs) in
           let '(w, tr) := run h ss ops in
-          zz_eqb (pulls_of tr) obs
+          zz_eqb (pulls_of tr) obs && (length lens =? length errs)%nat
+          && zz_eqb (rets_of tr) ret
           && ((consT =? -1) || (match htotal h with Some L => consumed L (wtotal w) | None => 0 end =? consT))
           && ((consL =? -1) || (match hlocal h with Some L => consumed L (wlocal w 0%nat) | None => 0 end =? consL))
       end
